@@ -191,10 +191,9 @@ func (f *Frame) instr(in ssa.Instruction) {
 		}
 		f.zeroInit(obj, tb.BV(64, L.Size(et)), L.ElemSorts(et))
 		f.set(x, []*Term{obj, tb.BV(64, 0)})
-		switch et.Underlying().(type) {
-		case *types.Struct, *types.Array:
-			// a variable of type et: a typed pointer materialised later can only point into it
-			// when its target type occurs in et (type safety, see typesafety.go)
+		// a variable of type et: a typed pointer materialised later can only point into it
+		// when its target type occurs in et or contains it (type safety, see typesafety.go)
+		if L.Size(et) > 0 {
 			f.u.allocs = append(f.u.allocs, typedPtr{et, obj, tb.BV(64, 0)})
 		}
 	case *ssa.UnOp:
